@@ -72,6 +72,8 @@ func c10Wire(c c10Cmd, dir string, rng *rand.Rand) (wire string, payload string)
 		"orderkeyword3": "select count($line) order limit 10",
 		"clausekeyword": []string{"select count($line) where group by $hostname", "select count($line) set group by $hostname", "select count($line) group by order by count($line)",
 			"select count($line) from where $x eq 1", "select from STATS", "select count($line) limit outfile x.csv", "select count($line) outfile limit 3"}[rng.Intn(7)],
+		"danglingwhere": []string{"select count($line) from STATS where $a == 1 and $b", "select count($line) where $a == 1 $b eq group by $a",
+			"select count($line) where $a lt 2 $b", "select count($line) where $a eq 1 and $b ne", "select count($line) where $a eq 1, $b eq 2, $c"}[rng.Intn(5)],
 		"quotedbackquote": []string{"select count($line) where $line contains \"`\"", "select count($line) set $x = \"`\" group by $hostname",
 			"select count($line) where \"`\" eq $line"}[rng.Intn(3)],
 		"quotedkeyword": []string{"select count($line) where $line eq \"limit\"", "select count($line) set $x = \"group\"", "select count($line) outfile \"select\""}[rng.Intn(3)],
